@@ -72,6 +72,8 @@ async def with_shipped_evaluators(mode: str, cer, factory, text: Optional[str] =
       mode "hardcoded": create_hardcoded_evaluators(cer)  (dictionary based)
       mode "cer":       create_content_evaluation_result_based_evaluators(), the result travelling in context local evaluatable data
       mode "cer-long-lived": the same evaluators, but ONE EvaluatableData object whose body is refreshed in place from call to call
+      mode "hardcoded-other-version" / "hardcoded-other-format": as "hardcoded", but the message is of a version / format nothing is registered for
+      mode "one-table-provider": a user-written TokenLogicProvider serving one DictBasedPackageResolver(table) created without format
       mode "instances": user evaluator classes that keep their answers in instance state, new instances for every call
     ("ok", value) | ("exc", exception); the harness evaluators are re-installed afterwards
     """
@@ -79,6 +81,16 @@ async def with_shipped_evaluators(mode: str, cer, factory, text: Optional[str] =
 
     if mode == "hardcoded":
         E.install_hardcoded(cer)
+    elif mode == "hardcoded-other-version":
+        from efoli import EdifactFormatVersion
+
+        E.install_hardcoded(cer, data_version=EdifactFormatVersion.FV2304)
+    elif mode == "hardcoded-other-format":
+        from efoli import EdifactFormat
+
+        E.install_hardcoded(cer, data_format=EdifactFormat.MSCONS)
+    elif mode == "one-table-provider":
+        E.install_one_table_provider(dict(cer.packages or {}))
     elif mode == "instances":
         E.install_instance_state({k: E.REF[v] for k, v in cer.requirement_constraints.items()}, {k: v.format_constraint_fulfilled for k, v in cer.format_constraints.items()}, cer.hints)
     else:
@@ -88,6 +100,8 @@ async def with_shipped_evaluators(mode: str, cer, factory, text: Optional[str] =
     async def go():
         if mode in ("cer", "cer-long-lived"):
             E.set_cer(cer)
+        if mode == "one-table-provider":
+            E.set_world(E.World("one-table"))
         text_to_be_evaluated_by_format_constraint.set(text)
         return await factory()
 
